@@ -179,6 +179,7 @@ class _Ttl:
         if st.random() < 0.3:
             # prefix labels that look like keywords of the syntax (they are ordinary labels: a colon follows)
             names = st.choice([["base", "prefix", "graph"], ["prefix", "Base", "a"], ["graph", "PREFIX", "base"]]) + names
+            names = list(dict.fromkeys(names))  # (each label once: a label declared twice would stand for the later namespace)
         for ns in sorted(set(nss)):
             if st.random() < 0.7 and len(self.prefixes) < len(names):
                 self.prefixes[ns] = names[len(self.prefixes)]
